@@ -1031,6 +1031,14 @@ var shapes = []shape{
 	{"quoted-meta", "we(?:b", "){2}"}, {"quoted-meta", "web\\|", ""},
 }
 
+// one or two shapes per class: tried at every regex-carrying position in every run
+var coreShapes = []shape{
+	{"alternation", "api|web", ""}, {"anchored-alternation", "^(?:api|web", ")$"}, {"anchored-literal", "^web", "$"},
+	{"anchored-literal", "^(?:web", ")$"}, {"prefix-suffix", "web", ".*"}, {"prefix-suffix", ".*web", ""}, {"prefix-suffix", ".*web", ".*"},
+	{"case-insensitive", "(?i)web", ""}, {"case-insensitive", "(?i)api|web", ""}, {"empty-alternative", "web", "|"},
+	{"empty-alternative", "^(?:|web", ")$"}, {"empty-alternative", "(?:web", ")?"}, {"quoted-meta", "api\\.web", ""},
+}
+
 // atoms that are regex literals themselves (the shape of the expression stays the marker's): quotes, backslashes, comment openers,
 // and the quote written as a regex escape (a fast path that parses the expression gets the decoded byte)
 var shapeAtoms = []string{
@@ -1256,6 +1264,15 @@ func main() {
 		return
 	}
 	r := hx.Rand(f.Seed)
+	// the grid: every regex-carrying position x every core shape, with a single quote at the marked place (deterministic, each run)
+	for _, st := range ss {
+		if !st.re {
+			continue
+		}
+		for _, sh := range coreShapes {
+			rn.oneShaped(st, sh.pre+"'"+sh.post, "grid:"+sh.class, len(sh.pre), len(sh.post))
+		}
+	}
 	for i := 0; i < f.N; i++ {
 		st := ss[i%len(ss)]
 		var v, class string
